@@ -165,6 +165,11 @@ Section Schur.
   Lemma sk_varz : fdot n lam_sk (fmv n Sigma lam_sk) == fdot n lam_sk sigma0.
   Proof. apply fdot_ext; intros l Hl; [reflexivity|apply sk_system; exact Hl]. Qed.
 
+  (* simple kriging estimate: primal form lambda_sk . z + mean (KrigingCalcul::_needZstar, means added when present) =
+     dual form sigma0 . (S z) + mean *)
+  Lemma sk_primal_dual z (m : Q) : fsym n S -> fdot n lam_sk z + m == fdot n sigma0 (fmv n S z) + m.
+  Proof. intro Ssym. unfold lam_sk. rewrite (dual_eq_primal n S sigma0 z Ssym). reflexivity. Qed.
+
   (* ---- universal kriging: lambda_uk . (X mu) = mu . x0 (drift rows), hence the forms of Var(Zstar) and of the error variance *)
   Lemma schur_lam_g : fdot n lam_uk g == fdot p mu x0.
   Proof.
